@@ -467,7 +467,7 @@ def judge(ctx, real, c, code_setup, cfg, do_init, do_restart):
             sig = f"C18:{holes[0]}"
         else:
             sig = (f"C18:invalid-rejected-with-{code_setup.replace('err:', '')}-error:"
-                   + ("empty-interfaces" if not c[0] else bad[0]))
+                   + ("empty-interfaces" if not c[0] else next((b for b in bad if b not in holes), bad[0])))
         fail_once(ctx, sig,
                   f"invalid configuration ({', '.join(bad)}) is rejected with {code_setup}, not TOMLConfigError",
                   {"case": obj, "violated": bad, "code": code_setup})
